@@ -32,6 +32,7 @@ class HsmsPeer:
         self.bytes_out = 0  # bytes sent to the endpoint on this connection
         self.auto_select = False
         self.auto_linktest = True
+        self.selected = False  # the peer's own view of the session (it answers data only when selected)
         self._out_parser = rc.FrameParser()  # tracks frame boundaries of what this peer has sent
         self._deferred: list = []
         sock.on_bytes = self._on_bytes
@@ -49,6 +50,11 @@ class HsmsPeer:
                 self.send(rc.control(rc.LINKTEST_RSP, fr.system))
             elif fr.stype == rc.SELECT_REQ and self.auto_select:
                 self.send(rc.control(rc.SELECT_RSP, fr.system))
+                self.selected = True
+            elif fr.stype == rc.SELECT_RSP and fr.function == 0:
+                self.selected = True
+            elif fr.stype in (rc.SEPARATE_REQ, rc.DESELECT_REQ):
+                self.selected = False
             for h in list(self.handlers):
                 h(fr)
         if self.parser.error:
